@@ -13,6 +13,9 @@ THEOREMS = [
     "PackVal.toStr_tokens", "PackVal.fromStr_toStr", "PackVal.fromStr_validates",
 ]
 
+#: compare the error *kind* (which check fired first) strictly; False = only accept/reject is a correspondence failure
+STRICT_KIND = True
+
 DTYPES = ["int8", "uint8", "int16", "uint16", "int32", "uint32", "int64", "uint64"]
 
 
@@ -510,7 +513,12 @@ def streams(ck: Check) -> None:
                 mv = d.get("v", mout)
                 # verdict and error kind are compared strictly; the row index / partner / id inside the
                 # message only softly (recorded, not failing): they do not bear on the property
-                ck.compare(stream + ":" + op, line, mv.split(":")[0], iout.split(":")[0])
+                if STRICT_KIND:
+                    ck.compare(stream + ":" + op, line, mv.split(":")[0], iout.split(":")[0])
+                else:
+                    ck.compare(stream + ":" + op, line, "ok" if mv == "ok" else "ERR", "ok" if iout == "ok" else "ERR")
+                    if mv.split(":")[0] != iout.split(":")[0]:
+                        ck.count("soft:error-kind-differs")
                 if mv != iout and mv.split(":")[0] == iout.split(":")[0]:
                     ck.count("soft:error-detail-differs")
                     if not any(n.startswith("error detail") for n in ck.notes):
